@@ -777,12 +777,20 @@ def intersection_operand_rule(crate, prop, rule):
                         loc1 = next((l for (n2, l, _) in t.interps if n2 == m1.group(1)), None)
                         tp1 = Q.stream_template(ib, loc1, tpls) if loc1 is not None else None
                         if tp1 is None:
-                            r.inst(fn=ib.path, literal=u, operand=arg[:120], atomic=None, because="the operand is a token stream whose template is not visible here: undecided", where="%s:%s" % (t.file, t.line))
-                            continue
-                        arg = tp1.text()
-                        t_ctx = tp1
-                        ok = bool(re.match(r"^# \w+ :: intersection_operand \( .* \)$", arg)) or arg.startswith("( ") and arg.endswith(" )")
-                        why = "intersection_operand()" if ok else None
+                            # no single template: is it the text of a whole type (what type_def / a DerivedTS `inline` gives)?
+                            # that can be a union, so it is not atomic
+                            o1 = panics.operand_origin(ib, {"k": "copy", "pl": {"l": loc1, "p": []}}) if loc1 is not None else ""
+                            sl = M.deep_slice(ib, loc1)[0] if loc1 is not None else []
+                            payload = re.search(r"DerivedTS\.inline(_flattened)?$", o1) or any(fn_matches(c, r"types::type_def$", r"types::\w+::\w+$") and "DerivedTS" in (c.get("dst_ty") or "") for _, c in sl)
+                            if not payload:
+                                r.inst(fn=ib.path, literal=u, operand=arg[:120], atomic=None, because="the operand is a token stream whose template is not visible here: undecided", where="%s:%s" % (t.file, t.line))
+                                continue
+                            arg = "%s (the inline text of a type: %s)" % (arg, o1)
+                        else:
+                            arg = tp1.text()
+                            t_ctx = tp1
+                            ok = bool(re.match(r"^# \w+ :: intersection_operand \( .* \)$", arg)) or arg.startswith("( ") and arg.endswith(" )")
+                            why = "intersection_operand()" if ok else None
                     mj = re.search(r":: join \( & \[ ,? ?# (\w+) \] , \" & \" \)$", arg)
                     if not ok and mj:
                         t = t_ctx
